@@ -38,7 +38,12 @@ def linear_data(g, info, K, is_dir, p0, grad):
     integrated flux) and exact face fluxes for p = p0 + grad.x, constant K."""
     pc = p0 + grad @ g.cell_centers
     pf = p0 + grad @ g.face_centers
-    q = -(g.face_normals.T @ (K @ grad))
+    gt = grad
+    if info.get("plane_normal") is not None:
+        # embedded 2-d grid: the flux within the surface is driven by the tangential gradient
+        nu = info["plane_normal"]
+        gt = grad - (grad @ nu) * nu
+    q = -(g.face_normals.T @ (K @ gt))
     bf = info["bfaces"]
     bcv = np.zeros(g.num_faces)
     bcv[bf[is_dir]] = pf[bf[is_dir]]
